@@ -4,8 +4,11 @@ package c16
 
 import (
 	"fmt"
+	"sync"
+	"sync/atomic"
 	"testing"
 
+	"github.com/tencent/goom/internal/arch/x86asm"
 	"github.com/tencent/goom/internal/bytecode"
 	"github.com/tencent/goom/zzverif/vmon"
 )
@@ -79,6 +82,98 @@ func TestC16ParseIns(t *testing.T) {
 				pos += l1
 			}
 		}
+	}
+	// results are values of their own: an instruction kept while the walk goes on still describes the instruction it was
+	// decoded from; walkers in several goroutines do not see each other's instructions
+	type snap struct {
+		pos, length, pcrel, pcreloff int
+		op                           string
+	}
+	walk := func(code []byte, keep bool) (snaps []snap, kept []*x86asm.Inst, err interface{}) {
+		defer func() {
+			if r := recover(); r != nil {
+				err = r
+			}
+		}()
+		for pos := 0; pos < len(code); {
+			ins, _, e := bytecode.ParseIns(pos, code)
+			if e != nil || ins == nil || ins.Len <= 0 {
+				break
+			}
+			snaps = append(snaps, snap{pos, ins.Len, ins.PCRel, ins.PCRelOff, ins.Op.String()})
+			if keep {
+				kept = append(kept, ins)
+			}
+			pos += ins.Len
+		}
+		return
+	}
+	var keptChecked int64
+	var sample [][]byte
+	for k := 0; k < nf/4; k++ {
+		f := im.funcs[rng.Intn(len(im.funcs))]
+		if f.end-f.off < 24 || f.end-f.off > 4096 {
+			continue
+		}
+		code := append([]byte{}, im.text[f.off:f.end]...)
+		if len(sample) < 64 {
+			sample = append(sample, code)
+		}
+		snaps, kept, perr := walk(code, true)
+		if perr != nil {
+			rep.Violate("C16/panic", fmt.Sprintf("walking %s with ParseIns panicked: %v", f.name, perr), nil)
+			continue
+		}
+		for i, ins := range kept {
+			keptChecked++
+			if now := (snap{snaps[i].pos, ins.Len, ins.PCRel, ins.PCRelOff, ins.Op.String()}); now != snaps[i] {
+				rep.Violate("C16/kept-result-changed-by-a-later-call", fmt.Sprintf("%s: the instruction returned for offset %d was %s len %d pcrel %d/%d when it was returned and reads %s len %d pcrel %d/%d after the walk went on",
+					f.name, snaps[i].pos, snaps[i].op, snaps[i].length, snaps[i].pcrel, snaps[i].pcreloff, now.op, now.length, now.pcrel, now.pcreloff), map[string]interface{}{"function": f.name, "offset": snaps[i].pos})
+				break
+			}
+		}
+	}
+	steps += keptChecked
+	rep.Stat("parseins_kept_results_checked", keptChecked)
+	rep.Class("parseins/results-kept")
+	if len(sample) >= 8 {
+		refs := make([][]snap, len(sample))
+		for i, code := range sample {
+			refs[i], _, _ = walk(code, false)
+		}
+		const walkers = 8
+		rounds := vmon.EnvInt("VERIF_C16_WALKROUNDS", 300)
+		var wg sync.WaitGroup
+		var bad, walks int64
+		var first atomic.Value
+		bar := vmon.NewSpinBarrier(walkers)
+		for g := 0; g < walkers; g++ {
+			wg.Add(1)
+			go func(g int) {
+				defer wg.Done()
+				bar.Wait()
+				for r := 0; r < rounds; r++ {
+					i := (g*7 + r) % len(sample)
+					got, _, perr := walk(sample[i], false)
+					atomic.AddInt64(&walks, 1)
+					same := perr == nil && len(got) == len(refs[i])
+					for k := 0; same && k < len(got); k++ {
+						same = got[k] == refs[i][k]
+					}
+					if !same {
+						atomic.AddInt64(&bad, 1)
+						first.CompareAndSwap(nil, fmt.Sprintf("goroutine %d, round %d, function sample %d: %d instructions (panic: %v), alone %d", g, r, i, len(got), perr, len(refs[i])))
+					}
+				}
+			}(g)
+		}
+		wg.Wait()
+		steps += walks
+		if bad > 0 {
+			rep.Violate("C16/concurrent-walks-disagree", fmt.Sprintf("%d of %d walks by %d goroutines at once differ from the same walk made alone; first: %v", bad, walks, walkers, first.Load()), nil)
+		}
+		rep.Stat("parseins_concurrent_walks", walks)
+		rep.Class("parseins/concurrent-walkers")
 	}
 	rep.Eval(steps)
 	rep.Stat("parseins_blocks", blocks)
